@@ -637,10 +637,10 @@ def run_race(case: dict, stats: Stats | None = None) -> dict:
     # them, every failed call leaves things as they were)
     if case["init"] is not None and not any(o["status"] == "crash" for o in outs):
         try:
-            fm = seam.real("lstat")(target).st_mode & 0o7777
+            fm = seam.real("lstat")(target).st_mode & 0o777  # the nine permission bits (set-id/sticky are not permission bits)
         except OSError:
             fm = None
-        if fm is not None and fm != case.get("fmode", 0o644):
+        if fm is not None and fm != case.get("fmode", 0o644) & 0o777:
             culprits = [i for i, a in enumerate(actors) if any(op.name in ("chmod", "fchmod") and op.path == target and op.outcome == "ok"
                                                                for op in a.ops)]
             V("I3.mode", f"the target's permission bits changed {oct(case.get('fmode', 0o644))} -> {oct(fm)}; writers that chmod'ed the "
